@@ -593,6 +593,27 @@ SPECS += [
     ("C03", "conditional-write-skips-loop-check", "rope/refactor/extract.py", None, ["R03.14"]),
     ("C14", "blank-skip-inside-open-line", "rope/base/codeanalyze.py", None, ["R14.15"]),
 ]
+# ---- round 11: byte columns, f-string-aware bracket scans
+_COL2OFF = "codeanalyze.column_to_offset(self._lines.get_line(lineno), col_offset)"
+SPECS += [
+    ("C06", "argument-text-cut-at-byte-column", "rope/refactor/functionutils.py",
+     replace_expr_where("_BaseFunctionParser._get_offset", _is(_COL2OFF), _expr("col_offset")), ["R06.10"]),
+    ("C06", "byte-column-converter-is-identity", "rope/base/codeanalyze.py",
+     replace_expr_where("column_to_offset", _is("len(line.encode('utf-8')[:byte_column].decode('utf-8', 'ignore'))"), _expr("byte_column")), ["R06.10"]),
+    ("C08", "byte-column-converter-is-identity", "rope/base/codeanalyze.py",
+     replace_expr_where("column_to_offset", _is("len(line.encode('utf-8')[:byte_column].decode('utf-8', 'ignore'))"), _expr("byte_column")), ["R08.11"]),
+    ("C01", "f-string-name-at-byte-column", "rope/refactor/occurrences.py",
+     replace_expr_where("_TextualFinder._search_in_f_string", _is("offset(node.lineno, node.col_offset)"), _expr("node.col_offset")), ["R01.13"]),
+    ("C02", "f-string-attribute-at-byte-column", "rope/refactor/occurrences.py",
+     replace_expr_where("_TextualFinder._search_in_f_string", _is("offset(node.end_lineno, node.end_col_offset)"), _expr("node.end_col_offset")), ["R02.18"]),
+    ("C08", "next-statement-bound-from-expression-column", "rope/refactor/patchedast.py",
+     replace_expr_where("_PatchingASTWalker._handle", _is("self._find_next_statement_start()"),
+                        _expr("self.lines.get_line_start(node.end_lineno) + node.end_col_offset")), ["R08.11"]),
+    ("C14", "f-string-regions-not-collected", "rope/base/simplify.py",
+     remove_stmt_where("real_code", stmt_is("fstrings.append((start, end))")), ["R14.16"]),
+    ("C14", "parens-start-does-not-step-over-atoms", "rope/base/worder.py",
+     replace_expr_where("_RealFinder._find_parens_start", _is("self._find_primary_start(offset)"), _expr("offset")), ["R14.16"]),
+]
 SPECS = [s for s in SPECS if s[3] is not None]  # (entries without an AST edit are covered by their kept seed)
 
 SPECS = [s for s in SPECS if s[1] != "tab-to-four-spaces"]
